@@ -140,6 +140,13 @@ def corpus():
                             callers=[dict(kind='stream', items=items, rexc=True, stop_after=1, stop_mode=mode)]))
             out.append(dict(kind=kind, cap=2, nworkers=2, nreq=10, followups=1, exit_busy=False, chooser=['sticky', 0.2, 0.0], seed=8,
                             callers=[dict(kind='stream', items=items, rexc=False, stop_after=2, stop_mode=mode)]))
+    # a stream left open with a slow source, the server entered again before the stream is closed (seeded C07-10)
+    for cap_, ch, seed in ((1, ['random', 0.0], 22), (1, ['random', 0.0], 25), (1, ['sticky', 0.2, 0.0], 1), (1, ['sticky', 0.2, 0.0], 2),
+                           (2, ['random', 0.0], 0), (2, ['sticky', 0.2, 0.0], 32), (3, ['random', 0.0], 0), (3, ['random', 0.0], 1)):
+        items = [dict(r=i, dur=1, fail=False) for i in range(10)]
+        out.append(dict(kind='sync', cap=cap_, nworkers=1, nreq=10, followups=1, exit_busy=False, chooser=ch, seed=seed,
+                        reenter_open=True,
+                        callers=[dict(kind='stream', items=items, rexc=True, stop_after=1, stop_mode='leave')]))
     # a caller gives up waiting for room just as the notification of a freed slot reaches it, while another caller
     # (no backpressure, unbounded deadline) waits as well: the wake-up must not be lost on the one that leaves (F44;
     # schedules on which the pinned code starved request 2)
@@ -314,6 +321,10 @@ def run_case(case):
     has_leave = case['kind'] == 'sync' and any(sp['kind'] == 'stream' and sp.get('stop_mode') == 'leave' and sp['stop_after'] is not None
                                                for sp in case['callers'])
     exit_busy = bool(case.get('exit_busy')) and not has_leave
+    # (with a stream left open) the server is entered again BEFORE that stream is closed: its feeder, slowed down by its
+    # source, may arrive at the server while it is stopped, or in the next session
+    reenter_open = has_leave and bool(case.get('reenter_open', case['seed'] % 2 == 0))
+    src_dur = 3 if reenter_open else 0
     ev = []
     log = ev.append
     wake = _Wake()
@@ -535,6 +546,8 @@ def run_case(case):
 
                     def data():
                         for it in items:
+                            for _ in range(src_dur):
+                                detsched.yield_here('src')       # a slow source: the feeder is often between two elements
                             log(('call', it['r'], 0, 1))     # abandonable: the stream may be closed early
                             yield _pl(it['r'], it['dur'], it['fail'])
 
@@ -615,6 +628,20 @@ def run_case(case):
             raise
         except BaseException as e:  # noqa
             box['exit_error'] = repr(e)
+        if reenter_open and 'exit_error' not in box:
+            try:
+                for _ in range(25):
+                    detsched.yield_here('stopped')      # the stopped server, with the feeder of the open stream still alive
+                srv.__enter__()
+                box['reenter_backlog'] = srv.backlog
+                do_call(case['nreq'] + 50, 1, False, FOREVER, False)
+                time.sleep(1000)
+                box['idle_backlog'] = srv.backlog
+                srv.__exit__(None, None, None)
+            except detsched.Abort:
+                raise
+            except BaseException as e:  # noqa
+                box['exit_error'] = 're-entering while a stream was still open: ' + repr(e)
         for g in box.pop('open_streams', []):
             t0c = detsched.now()
             try:
@@ -624,7 +651,7 @@ def run_case(case):
             except BaseException as e:  # noqa
                 box['exit_error'] = 'closing a stream after the server was left: ' + repr(e)
             box['late_close'] = max(box.get('late_close', 0.0), detsched.now() - t0c)
-        if has_leave and 'exit_error' not in box:
+        if has_leave and not reenter_open and 'exit_error' not in box:
             # the same object once more: whatever the feeder of the left-open stream did when the server was left,
             # the server comes back with every slot free and serves
             try:
